@@ -3,7 +3,7 @@
    depend on the replacement-watch choice are stated for both values. *)
 From Coq Require Import Bool NArith List Arith Lia.
 Import ListNotations.
-From RsddV Require Import Model.UnitProp Proofs.UnitProp Proofs.UnitPropFix.
+From RsddV Require Import Model.UnitProp Proofs.UnitProp Proofs.UnitPropFix Proofs.UnitPropFuel Proofs.UnitPropHash.
 
 (* up_sound: after new and after any valid decide/pop history, every frame's model -- in
    particular the current one -- is entailed by the CNF and the decisions on the stack. *)
@@ -113,20 +113,86 @@ Theorem C09_up_fixpoint_step : forall nvars cls fuel w m a w' r,
 Proof. exact fix_step. Qed.
 Print Assumptions C09_up_fixpoint_step.
 
-(* hash_injective.  Full statement (kept visible; NOT proved -- checked only by the
-   correspondence and the oracle): under the guard 0 < product of all literal weights < 2^128,
-   two reachable states with equal hashes have the same residual formula (position by position:
-   the same clauses satisfied, the same literals unassigned in the others). *)
-Definition all_weights (cl : list wclause) : list N := map snd (concat cl).
-Definition residual (cl : list wclause) (m : pmodel) : list (option clause) :=
-  map (fun wc => if wc_sat m wc then None else Some (remaining m (map fst wc))) cl.
+(* fuel: with the fuel the solver passes (up_fuel) neither new nor any decide on a reachable state
+   runs out of fuel (pinned and repaired code), so a history is invalid only because it pops
+   without a matching successful decide or decides a label >= num_vars (where the code panics).
+   The "run returns" side condition of the other theorems is therefore no restriction. *)
+Theorem C09_new_no_out_of_fuel : forall pinned nvars cls,
+  lits_in_range nvars cls -> sat_new pinned cls nvars <> NewOutOfFuel.
+Proof. exact sat_new_no_out_of_fuel. Qed.
+Print Assumptions C09_new_no_out_of_fuel.
+
+Theorem C09_raw_no_out_of_fuel : forall pinned raw, solver_of_raw pinned raw <> NewOutOfFuel.
+Proof. exact raw_no_out_of_fuel. Qed.
+Print Assumptions C09_raw_no_out_of_fuel.
+
+Theorem C09_decide_no_out_of_fuel : forall pinned nvars cls,
+  lits_in_range nvars cls -> forall s0 s ds a,
+  sat_new pinned cls nvars = NewSome s0 -> reaches pinned s0 s ds ->
+  snd (sat_decide pinned s a) <> DOutOfFuel.
+Proof. exact decide_no_out_of_fuel. Qed.
+Print Assumptions C09_decide_no_out_of_fuel.
+
+Theorem C09_history_fails_only_by_guard : forall pinned nvars cls,
+  lits_in_range nvars cls -> forall s0 s ds o,
+  sat_new pinned cls nvars = NewSome s0 -> reaches pinned s0 s ds ->
+  run_track pinned s ds [o] = None ->
+  (o = Pop /\ ds = []) \/ (exists a, o = Decide a /\ nvars <= lvar a).
+Proof. exact history_fails_only_by_guard. Qed.
+Print Assumptions C09_history_fails_only_by_guard.
+
+(* hash.  (1) Along every valid history (pinned and repaired code) cur_hash is the product, modulo
+   2^128, of the weights of the removed literal occurrences: every occurrence of a satisfied
+   clause and the false literals of the other clauses (Pall).  (2) hash_injective: under the
+   explicit guard 0 < product of all literal weights < 2^128, two reachable states of the repaired
+   code with equal hashes have the same residual formula, clause position by clause position (the
+   same clauses satisfied, the same literals unassigned in the others).  "0 <" says that the
+   modelled prime stream never ran out of search fuel (it returns 0 then; that its search bound
+   always suffices is Bertrand's postulate, not proved); the weights are then proved to be
+   pairwise distinct primes.  (3) The converse needs no guard. *)
+Theorem C09_hash_is_product : forall pinned cls nvars s0 s ds,
+  sat_new pinned cls nvars = NewSome s0 -> reaches pinned s0 s ds ->
+  sat_cur_hash s = (Pall (s_clauses s) (ss_model (top_state s)) mod two128)%N.
+Proof. exact hash_is_product. Qed.
+Print Assumptions C09_hash_is_product.
+
 Definition C09_hash_injective_statement : Prop :=
-  forall cls nvars s0 s1 ds1 s2 ds2,
-    sat_new false cls nvars = NewSome s0 ->
-    (0 < fold_right N.mul 1%N (all_weights (s_clauses s0)) < 2 ^ 128)%N ->
+  forall raw s0 s1 ds1 s2 ds2,
+    solver_of_raw false raw = NewSome s0 ->
+    (0 < prodf (fun w => w) (all_weights (s_clauses s0)) < two128)%N ->
     reaches false s0 s1 ds1 -> reaches false s0 s2 ds2 ->
     sat_cur_hash s1 = sat_cur_hash s2 ->
     residual (s_clauses s0) (ss_model (top_state s1)) = residual (s_clauses s0) (ss_model (top_state s2)).
+
+Theorem C09_hash_injective : C09_hash_injective_statement.
+Proof. exact hash_injective_raw. Qed.
+Print Assumptions C09_hash_injective.
+
+Theorem C09_hash_injective_general : forall nvars cls s0 s1 ds1 s2 ds2,
+  lits_in_range nvars cls -> rem_adj_ok cls ->
+  sat_new false cls nvars = NewSome s0 ->
+  (0 < prodf (fun w => w) (all_weights (s_clauses s0)) < two128)%N ->
+  reaches false s0 s1 ds1 -> reaches false s0 s2 ds2 ->
+  sat_cur_hash s1 = sat_cur_hash s2 ->
+  residual (s_clauses s0) (ss_model (top_state s1)) = residual (s_clauses s0) (ss_model (top_state s2)).
+Proof. exact hash_injective. Qed.
+Print Assumptions C09_hash_injective_general.
+
+Theorem C09_equal_removed_equal_hash : forall pinned cls nvars s0 s1 ds1 s2 ds2,
+  sat_new pinned cls nvars = NewSome s0 -> reaches pinned s0 s1 ds1 -> reaches pinned s0 s2 ds2 ->
+  sel (s_clauses s0) (ss_model (top_state s1)) = sel (s_clauses s0) (ss_model (top_state s2)) ->
+  sat_cur_hash s1 = sat_cur_hash s2.
+Proof. exact equal_sel_equal_hash. Qed.
+Print Assumptions C09_equal_removed_equal_hash.
+
+(* the guard is satisfiable: the D2 CNF has weights 2,3,5 *)
+Example C09_hash_guard_nonvacuous :
+  match solver_of_raw false d2_cnf with
+  | NewSome s0 => all_weights (s_clauses s0) = [2; 3; 5]%N /\
+                  (0 < prodf (fun w => w) (all_weights (s_clauses s0)) < two128)%N
+  | _ => False
+  end.
+Proof. vm_compute. split; [reflexivity|split; reflexivity]. Qed.
 
 (* D2 (pinned code): after decide(x0=T), pop, decide(x2=F), decide(x0=T) on (¬x0 ∨ ¬x1 ∨ x2),
    x1 is left unassigned although the clause is unit; the repaired code assigns it. *)
